@@ -108,6 +108,7 @@ type Translator struct {
 	callOrd map[*ssa.Call]int
 	bodyLocals bool // ghost assertions inside a loop body may name the body's own locals
 	noSafety bool
+	noSafetyNoted bool
 	curCall int
 	curCallOrd int // ordinal of the call being translated (only when the contract has hints)
 	rets    []retEdge
@@ -179,6 +180,13 @@ func (t *Translator) oblige(st *State, kind, label string, tags []string, goal, 
 
 func (t *Translator) safety(st *State, what string, goal string, pos token.Pos, expr string) {
 	if goal == "true" || t.noSafety {
+		return
+	}
+	if root := t.root(); root.spec != nil && root.spec.NoSafety {
+		if !root.noSafetyNoted {
+			root.noSafetyNoted = true
+			t.vc.note("panic-freedom of the body of %s and the preconditions of its callees are not checked (contract marked nosafety)", root.short)
+		}
 		return
 	}
 	t.oblige(st, "safety."+what, expr, t.safetyTags, goal, t.w.pos(pos), expr)
@@ -1126,6 +1134,12 @@ func (t *Translator) invEnv(st *State, li *loopInfo) *Env {
 			}
 		}
 	}
+	// inside the invariants of a slice-range loop, `rangeindex` is that loop's own hidden index
+	if li != nil {
+		if v, ok := vars[fmt.Sprintf("rangeindex%d", li.n)]; ok && li.n > 0 {
+			vars["rangeindex"] = v
+		}
+	}
 	// heap-allocated named locals (escaping): expose through box
 	env := &Env{w: t.w, vc: t.vc, cur: st.heap, old: t.entry.heap, vars: vars, ctx: t.ctx}
 	if li != nil {
@@ -1455,4 +1469,12 @@ func valueKey(v ssa.Value) string {
 		fn = in.Parent().String()
 	}
 	return fmt.Sprintf("%s/%s/%08d", fn, v.Name(), int(v.Pos()))
+}
+
+func (t *Translator) root() *Translator {
+	r := t
+	for r.parent != nil {
+		r = r.parent
+	}
+	return r
 }
